@@ -231,6 +231,89 @@ Proof.
   split; [exact P | apply tau_id].
 Qed.
 
+(* ---------------------------------------------------------------- actuator force-velocity derivative *)
+Lemma affine_locally_lt : forall A B v c : R, A + B * v < c -> locally v (fun w => A + B * w < c).
+Proof.
+  intros A B v c H.
+  assert (He : 0 < (c - (A + B * v)) / (Rabs B + 1)).
+  { apply Rdiv_lt_0_compat; [lra | pose proof (Rabs_pos B); lra]. }
+  exists (mkposreal _ He). intros w Hw.
+  unfold ball in Hw. simpl in Hw. unfold AbsRing_ball, abs, minus, plus, opp in Hw. simpl in Hw.
+  assert (Hb : Rabs (B * (w - v)) <= Rabs B * Rabs (w - v)) by (rewrite Rabs_mult; lra).
+  assert (Hc : Rabs B * Rabs (w - v) < c - (A + B * v)).
+  { pose proof (Rabs_pos B) as PB. pose proof (Rabs_pos (w - v)) as PW.
+    apply Rle_lt_trans with ((Rabs B + 1) * Rabs (w + - v)).
+    - replace (w + - v) with (w - v) by ring. nra.
+    - replace (c - (A + B * v)) with ((Rabs B + 1) * ((c - (A + B * v)) / (Rabs B + 1))) by (field; lra).
+      apply Rmult_lt_compat_l; [lra | exact Hw]. }
+  pose proof (Rle_abs (B * (w - v))). nra.
+Qed.
+
+Lemma affine_locally_gt : forall A B v c : R, c < A + B * v -> locally v (fun w => c < A + B * w).
+Proof.
+  intros A B v c H.
+  pose proof (affine_locally_lt (- A) (- B) v (- c)) as L.
+  assert (H' : - A + - B * v < - c) by lra. specialize (L H').
+  destruct L as [e He]. exists e. intros w Hw. specialize (He w Hw). simpl in He. lra.
+Qed.
+
+Lemma act_force_raw_affine : forall g0 g1 g2 b0 b1 b2 len u w : R,
+  act_force_raw g0 g1 g2 b0 b1 b2 len u w = ((g0 + g1 * len) * u + (b0 + b1 * len)) + (g2 * u + b2) * w.
+Proof. intros. unfold act_force_raw. num_R. ring. Qed.
+
+(* mjd_actuator_vel's rule is the derivative of the applied (clamped) force wherever it exists *)
+Lemma act_force_vel_correct : forall (fl : bool) (flo fhi g0 g1 g2 b0 b1 b2 len u v : R),
+  flo < fhi ->
+  (fl = true -> act_force_raw g0 g1 g2 b0 b1 b2 len u v <> flo /\ act_force_raw g0 g1 g2 b0 b1 b2 len u v <> fhi) ->
+  is_derive (fun w => act_force fl flo fhi g0 g1 g2 b0 b1 b2 len u w) v
+            (act_force_vel fl flo fhi g2 b2 u (act_force fl flo fhi g0 g1 g2 b0 b1 b2 len u v)).
+Proof.
+  intros fl flo fhi g0 g1 g2 b0 b1 b2 len u v Hr Hk.
+  set (A := (g0 + g1 * len) * u + (b0 + b1 * len)). set (B := g2 * u + b2).
+  assert (Hraw : forall w, act_force_raw g0 g1 g2 b0 b1 b2 len u w = A + B * w) by (intro; apply act_force_raw_affine).
+  assert (Daff : is_derive (fun w => A + B * w) v B) by (auto_derive; [exact I | ring]).
+  unfold act_force, act_force_vel. destruct fl; cbn [andb].
+  - destruct (Hk eq_refl) as [K1 K2]. rewrite Hraw in K1, K2.
+    unfold mjclip. num_R. rewrite !Hraw.
+    destruct (Rltb (A + B * v) flo) eqn:E1.
+    + apply Rltb_true in E1.
+      replace (Rleb flo flo) with true by (symmetry; apply Rleb_true; lra). cbn [orb].
+      apply (is_derive_ext_loc (fun _ => flo)).
+      * destruct (affine_locally_lt A B v flo E1) as [e He]. exists e. intros w Hw. specialize (He w Hw). simpl in He.
+        rewrite Hraw. replace (Rltb (A + B * w) flo) with true by (symmetry; apply Rltb_true; lra). reflexivity.
+      * apply @is_derive_const.
+    + apply Rltb_false in E1.
+      destruct (Rltb fhi (A + B * v)) eqn:E2.
+      * apply Rltb_true in E2.
+        replace (Rleb fhi flo) with false by (symmetry; apply Rleb_false; lra).
+        replace (Rleb fhi fhi) with true by (symmetry; apply Rleb_true; lra). cbn [orb].
+        apply (is_derive_ext_loc (fun _ => fhi)).
+        -- destruct (affine_locally_gt A B v fhi E2) as [e He]. exists e. intros w Hw. specialize (He w Hw). simpl in He.
+           rewrite Hraw. replace (Rltb (A + B * w) flo) with false by (symmetry; apply Rltb_false; lra).
+           replace (Rltb fhi (A + B * w)) with true by (symmetry; apply Rltb_true; lra). reflexivity.
+        -- apply @is_derive_const.
+      * apply Rltb_false in E2.
+        assert (I1 : flo < A + B * v) by lra. assert (I2 : A + B * v < fhi) by lra.
+        replace (Rleb (A + B * v) flo) with false by (symmetry; apply Rleb_false; lra).
+        replace (Rleb fhi (A + B * v)) with false by (symmetry; apply Rleb_false; lra). cbn [orb].
+        replace (b2 + g2 * u) with B by (unfold B; ring).
+        apply (is_derive_ext_loc (fun w => A + B * w)); [|exact Daff].
+        destruct (affine_locally_gt A B v flo I1) as [e1 He1]. destruct (affine_locally_lt A B v fhi I2) as [e2 He2].
+        assert (Hm : 0 < Rmin e1 e2) by (apply Rmin_pos; [apply e1 | apply e2]).
+        exists (mkposreal _ Hm). intros w Hw.
+        assert (W1 : ball v e1 w) by (eapply ball_le; [|exact Hw]; simpl; apply Rmin_l).
+        assert (W2 : ball v e2 w) by (eapply ball_le; [|exact Hw]; simpl; apply Rmin_r).
+        specialize (He1 w W1). specialize (He2 w W2). simpl in He1, He2.
+        rewrite Hraw. replace (Rltb (A + B * w) flo) with false by (symmetry; apply Rltb_false; lra).
+        replace (Rltb fhi (A + B * w)) with false by (symmetry; apply Rltb_false; lra). reflexivity.
+  - num_R. replace (b2 + g2 * u) with B by (unfold B; ring).
+    apply (is_derive_ext (fun w => A + B * w)); [intro w; rewrite Hraw; reflexivity | exact Daff].
+Qed.
+
+(* the input of the gain is the CLAMPED control (same value in the force and in its derivative) *)
+Lemma act_input_range : forall (clo chi ctrl : R), clo <= chi -> clo <= act_input true clo chi ctrl <= chi.
+Proof. intros. unfold act_input. apply mjclip_range. auto. Qed.
+
 (* ---------------------------------------------------------------- implicit update *)
 Lemma addToScl_length : forall (r v : list R) k, length (addToScl r v k) = length r.
 Proof. induction r; intros [|x v] k; simpl; auto. Qed.
